@@ -836,3 +836,176 @@ func c09r6(rc *core.RC) {
 		rc.Unknown("decoder/window-splices", token.NoPos, "found %d in-place splices of the stream window (confirmed: decodeUnicode, decodeEscapeString, 2 in stringBytes)", n)
 	}
 }
+
+// ---- C09.R7 the local cursor is written back before a refill ----
+
+func c09r7(rc *core.RC) {
+	p := rc.P
+	n := 0
+	for _, fd := range p.Funcs("decoder") {
+		if fd.Body == nil {
+			continue
+		}
+		info := p.Info(fd)
+		// local cursor taken from s.stat()
+		var cur types.Object
+		ast.Inspect(fd.Body, func(m ast.Node) bool {
+			if as, ok := m.(*ast.AssignStmt); ok && len(as.Lhs) == 3 && len(as.Rhs) == 1 {
+				if c, ok := core.Unparen(as.Rhs[0]).(*ast.CallExpr); ok {
+					if cn := core.CalleeName(info, c); cn == "decoder.Stream.stat" || cn == "decoder.Stream.statForRetry" {
+						if o := core.ObjOf(info, as.Lhs[1]); o != nil {
+							cur = o
+						}
+					}
+				}
+			}
+			return true
+		})
+		if cur == nil {
+			continue
+		}
+		cf := core.BuildCFG(fd.Body, info)
+		isRetake := func(n ast.Node) bool {
+			as, ok := n.(*ast.AssignStmt)
+			if !ok || len(as.Rhs) != 1 {
+				return false
+			}
+			c, ok := core.Unparen(as.Rhs[0]).(*ast.CallExpr)
+			if !ok {
+				return false
+			}
+			cn := core.CalleeName(info, c)
+			return cn == "decoder.Stream.stat" || cn == "decoder.Stream.statForRetry"
+		}
+		// must-analysis of "in sync": true right after s.cursor = f(cursor) or a re-take; false after the local moves
+		in := map[*cfg.Block]bool{}
+		for _, b := range cf.G.Blocks {
+			in[b] = true
+		}
+		step := func(nd ast.Node, st bool) bool {
+			switch x := nd.(type) {
+			case *ast.IncDecStmt:
+				if core.ObjOf(info, x.X) == cur {
+					return false
+				}
+			case *ast.AssignStmt:
+				if isRetake(x) {
+					return true
+				}
+				for i, l := range x.Lhs {
+					if core.ObjOf(info, l) == cur {
+						// cursor = s.cursor keeps them equal
+						if i < len(x.Rhs) {
+							if f := core.FieldOf(info, x.Rhs[i]); f != nil && f.Name() == "cursor" {
+								return true
+							}
+						}
+						return false
+					}
+					if f := core.FieldOf(info, l); f != nil && f.Name() == "cursor" && i < len(x.Rhs) {
+						uses := false
+						ast.Inspect(x.Rhs[i], func(k ast.Node) bool {
+							if id, ok := k.(*ast.Ident); ok && info.Uses[id] == cur {
+								uses = true
+							}
+							return true
+						})
+						if uses {
+							return true
+						}
+					}
+				}
+			}
+			return st
+		}
+		for changed := true; changed; {
+			changed = false
+			for _, b := range cf.G.Blocks {
+				if !cf.Reachable(b) {
+					continue
+				}
+				st := in[b]
+				for _, nd := range b.Nodes {
+					st = step(nd, st)
+				}
+				for _, s := range b.Succs {
+					if in[s] && !st {
+						in[s] = false
+						changed = true
+					}
+				}
+			}
+		}
+		for _, b := range cf.G.Blocks {
+			if !cf.Reachable(b) {
+				continue
+			}
+			st := in[b]
+			for _, nd := range b.Nodes {
+				hasRead := false
+				ast.Inspect(nd, func(k ast.Node) bool {
+					if c, ok := k.(*ast.CallExpr); ok && core.CalleeName(info, c) == "decoder.Stream.read" {
+						hasRead = true
+					}
+					return true
+				})
+				if hasRead {
+					n++
+					rc.CallSites++
+					rc.Touch(p.FuncName(fd))
+					key := p.FuncName(fd) + "/refill/cursor-written-back"
+					if st {
+						rc.OK(key, nd.Pos(), "s.cursor holds the local position when the window is refilled")
+					} else {
+						rc.Bad(key, nd.Pos(), "the local cursor moved since it was last written to s.cursor, and the window is refilled here: the re-take after the refill (s.stat) returns the old s.cursor, so the scan resumes at a stale position when a chunk ends inside this token")
+					}
+				}
+				st = step(nd, st)
+			}
+		}
+	}
+	if n < 15 {
+		rc.Unknown("decoder/refills-with-local-cursor", token.NoPos, "found %d refill sites in functions that keep a local cursor", n)
+	}
+}
+
+// ---- C09.R8 after a refill behind a backslash the escaped byte is skipped, not dispatched again ----
+
+func c09r8(rc *core.RC) {
+	n := 0
+	for _, d := range dispatchSites(rc) {
+		if d.role != "in-string" {
+			continue
+		}
+		info := d.cf.Info
+		cc := d.bs.ClauseOf('\\')
+		if cc == nil {
+			continue
+		}
+		// only clauses that refill themselves
+		var retakes []*ast.CallExpr
+		refills := false
+		ast.Inspect(cc, func(m ast.Node) bool {
+			if c, ok := m.(*ast.CallExpr); ok {
+				switch core.CalleeName(info, c) {
+				case "decoder.Stream.read":
+					refills = true
+				case "decoder.Stream.stat", "decoder.Stream.statForRetry":
+					retakes = append(retakes, c)
+				}
+			}
+			return true
+		})
+		if !refills || len(retakes) == 0 {
+			continue
+		}
+		n++
+		rc.Touch(d.fn)
+		for _, c := range retakes {
+			rc.Check(core.CalleeName(info, c) == "decoder.Stream.stat", d.key("backslash-refill-retake"), c.Pos(), "after the refill behind a backslash the window is re-taken with stat(): statForRetry steps the cursor back, which makes the loop dispatch the escaped byte (an escaped quote ends the string)")
+		}
+	}
+	if n < 4 {
+		rc.Unknown("decoder/backslash-refills", token.NoPos, "found %d in-string backslash clauses that refill (confirmed: skipObject, skipArray, skipValue, decodeKeyNotFoundStream)", n)
+	}
+}
